@@ -869,6 +869,11 @@ FORMULA_STRINGS = [
     ("{[#A][#B][#A]}.{#A=[$]C,#B=[$]cc[$]}", {"C": 4, "H": 8}),                                   # 2-butene
     ("{[#A][#B]}.{#A=[$]cc[$],#B=[$]O}", {"C": 2, "H": 4, "O": 1}),                               # vinyl alcohol
     ("{[#A][#B]}.{#A=[$]n[$],#B=[$]C}", {"C": 1, "H": 5, "N": 1}),                                # methylamine
+    # tetrahedral centres written with @ / @@ and an implicit hydrogen
+    ("{[#A][#B]}.{#A=N[C@@H](C)C(=O)[$],#B=[$]O}", {"C": 3, "H": 7, "N": 1, "O": 2}),              # alanine
+    ("{[#A][#B]}.{#A=C[C@H](O)C[$],#B=[$]C}", {"C": 4, "H": 10, "O": 1}),                          # butan-2-ol
+    # a hydrogen end group as a fragment of its own
+    ("{[#Hter][#PEO]|3[#OH]}.{#PEO=[$]COC[$],#Hter=[$][H],#OH=[$]O}", {"C": 6, "H": 14, "O": 4}),
 ]
 
 
@@ -884,7 +889,7 @@ SQUASH_STRINGS = [
 ]
 
 
-def resolve_strings(strings):
+def resolve_strings(strings, run_seed=0):
     """Resolver-side C09 monitor on curated strings (free ions, salts, surplus descriptors)."""
     from cgsmiles.resolve import MoleculeResolver
     from .valence import check_valence
@@ -892,8 +897,18 @@ def resolve_strings(strings):
     stats = {}
     for text in strings:
         try:
-            _, fine = MoleculeResolver.from_string(text, last_all_atom=True).resolve_all()
-        except Exception:  # noqa
+            # the constructor is part of the input: the whole string, or the base string plus fragment dicts read
+            # beforehand (a library)
+            if H("ctor", run_seed, text) % 2 == 0 or text.count("}.{") != 1:
+                _, fine = MoleculeResolver.from_string(text, last_all_atom=True).resolve_all()
+            else:
+                base, block = text.split("}.{")
+                library = MoleculeResolver.read_fragment_strings(["{" + block], last_all_atom=True)
+                _, fine = MoleculeResolver.from_fragment_dicts(base + "}", library, last_all_atom=True).resolve_all()
+                stats["resolver_strings_via_library"] = stats.get("resolver_strings_via_library", 0) + 1
+        except Exception as exc:  # noqa
+            if raised_in_harness(exc):
+                raise
             stats["resolver_items_error"] = stats.get("resolver_items_error", 0) + 1
             continue
         for detail in check_valence(fine, explicit_h=text not in SQUASH_STRINGS, stats=stats):
@@ -999,7 +1014,7 @@ def execute(scenario):
         for key, value in extra["stats"].items():
             sim["stats"][key] = sim["stats"].get(key, 0) + value
     if sc.get("resolver_strings"):
-        extra = fork_call(resolve_strings, (sc["resolver_strings"],), timeout=300)
+        extra = fork_call(resolve_strings, (sc["resolver_strings"], sc["run_seed"]), timeout=300)
         for viol in extra["violations"]:
             result["violations"].append(dict(viol, where="resolver-side monitor (curated strings)"))
         for key, value in extra["stats"].items():
